@@ -17,35 +17,36 @@ type unsupported struct {
 }
 
 type Exec struct {
-	vc          *VC
-	pkg         *Pkg
-	info        *types.Info
-	fd          *ast.FuncDecl
-	fnObj       *types.Func
-	ct          *FuncContract
-	entry       *State
-	params      map[string]Value // entry values of params/receiver by name
-	names       map[string]types.Object
-	results     []types.Object
-	rets        []*State
-	loopN       int
-	strLits     map[string]Term
-	noOv        map[string]bool
-	curCase     string
-	callArgOrd  map[int]int // per assert-before clause: call sites met so far
-	extraHavoc  []types.Object
-	visited     types.Object
-	rawVars     map[types.Object]bool
-	rangeKey    map[string]Term
-	final       *State
-	entry0      *State
-	retOrd      map[token.Pos]int
-	deferFlag   map[*ast.DeferStmt]types.Object
-	deferSites  []*ast.DeferStmt
-	autoDec     func(*State) Term
-	inlineDepth int
-	paramVals   []Value
-	recvVal     Value
+	vc           *VC
+	pkg          *Pkg
+	info         *types.Info
+	fd           *ast.FuncDecl
+	fnObj        *types.Func
+	ct           *FuncContract
+	entry        *State
+	params       map[string]Value // entry values of params/receiver by name
+	names        map[string]types.Object
+	results      []types.Object
+	rets         []*State
+	loopN        int
+	strLits      map[string]Term
+	noOv         map[string]bool
+	curCase      string
+	callArgOrd   map[int]int // per assert-before clause: call sites met so far
+	callEllipsis bool        // the call being applied passes its variadic slice with ...
+	extraHavoc   []types.Object
+	visited      types.Object
+	rawVars      map[types.Object]bool
+	rangeKey     map[string]Term
+	final        *State
+	entry0       *State
+	retOrd       map[token.Pos]int
+	deferFlag    map[*ast.DeferStmt]types.Object
+	deferSites   []*ast.DeferStmt
+	autoDec      func(*State) Term
+	inlineDepth  int
+	paramVals    []Value
+	recvVal      Value
 }
 
 func (x *Exec) unsup(pos token.Pos, f string, a ...interface{}) {
